@@ -823,11 +823,13 @@ class ExcludeRegionState(object):  # pylint: disable=too-many-instance-attribute
             "G92 E{e}".format(e=self.position.E_AXIS.nativeToLogical())
         )
 
-        newZ = self.position.Z_AXIS.nativeToLogical()
-        oldZ = self.lastPosition.Z_AXIS.nativeToLogical()
+        # Compare the native (mm) Z positions: the logical values may be expressed in different
+        # units if G20/G21 was encountered while excluding.
+        newZ = self.position.Z_AXIS.current
+        oldZ = self.lastPosition.Z_AXIS.current
         moveZcmd = "G0 F{f} Z{z}".format(
             f=self.feedRate / self.feedRateUnitMultiplier,
-            z=newZ
+            z=self.position.Z_AXIS.nativeToLogical()
         )
 
         if (newZ > oldZ):
